@@ -222,7 +222,7 @@ func C20(run *mon.Run) {
 	run.Count("reference-checked-lines", checked)
 	// the reference-oracle checks themselves, re-run inside the portable (non-ADX) build: agreement
 	// of the configurations on a transcript is necessary, the oracles make it meaningful
-	cores := []string{"c04core"}
+	cores := []string{"c04core", "c06core", "c02core"}
 	if !run.Quick() {
 		cores = []string{"c04core", "c01core", "c02core", "c03core", "c06core", "c17core"}
 	}
